@@ -239,6 +239,12 @@ def run(chk: common.Check):
     # the first part ends without its terminal oxygen and the parts are separated by a bare, unpadded TER record
     no_oxt = "\n".join(l for l in chain_i.splitlines() if l[12:16].strip() != "OXT") + "\n"
     pairs.append(("3SGB chain I without OXT", no_oxt, {"I": "I"}, "3SGB chain I", chain_i, {"I": "J"}, {"sep": "TER", "tag": " (bare TER between the parts)"}))
+    # parts written one after the other with NO record between them: the first part ends with its hetero group (after its own TER), the other
+    # one with a terminal oxygen; the chain starts are still defined (C01)
+    pairs.append(("1HPX", S("1HPX.pdb"), {"A": "A", "B": "B"}, "3SGB chain I", chain_i, {"I": "I"}, {"sep": None, "tag": " (no record between the parts)"}))
+    # a part that sits on the coordinate origin (1HPX as deposited) and a far part with side chains cut back to their group-defining atoms
+    trunc, tdesc = structures.truncated_side_chains(S("3SGB-subset.pdb"))
+    pairs.append(("1HPX", S("1HPX.pdb"), {"A": "A", "B": "B"}, "3SGB-subset with truncated side chains", trunc, {"E": "E", "I": "I"}))
     gaps = [25.5, 60.0, 1200.0] + ([26.0, 300.0, 5000.0] if chk.thorough else [])
     for na, ta, ma, nb, tb, mb, *extra in pairs:
         extra = extra[0] if extra else {}
@@ -256,7 +262,7 @@ def run(chk: common.Check):
         except Exception as ex:   # noqa: BLE001
             found.append(("crash-alone", f"{na}: {type(ex).__name__}: {ex}", {"case": na}))
             continue
-        for gap in (gaps if "4DFR" not in na else gaps[1:2]):   # one gap for the (slower) 4DFR pairs
+        for gap in (gaps if ("4DFR" not in na and "truncated" not in nb) else gaps[1:2]):   # one gap for the (slower) 4DFR pairs
             axis = rng.randrange(3)
             lb, sh = separated(la, lb0, gap, axis)
             try:
@@ -264,7 +270,8 @@ def run(chk: common.Check):
             except Exception as ex:   # noqa: BLE001
                 found.append(("crash-alone", f"{nb} moved by {sh}: {type(ex).__name__}: {ex}", {"case": nb, "shift": sh}))
                 continue
-            for order, text in (("A then B", la.rstrip("\n") + f"\n{sep}\n" + lb + "END\n"), ("B then A", lb.rstrip("\n") + f"\n{sep}\n" + la + "END\n")):
+            seps = f"\n{sep}\n" if sep is not None else "\n"
+            for order, text in (("A then B", la.rstrip("\n") + seps + lb + "END\n"), ("B then A", lb.rstrip("\n") + seps + la + "END\n")):
                 what = f"{na} + {nb}, gap {gap} A along axis {axis}, {order}"
                 rep = {"case": what, "gap": gap, "axis": axis, "order": order, "options": [o if not o.startswith("/var/tmp") else "propka.cfg with common_charge_centre 1" for o in opts], "pdb_text": text if len(text) < 400000 else None}
                 try:
